@@ -15,7 +15,7 @@ def run(tier, seed):
     tlc_must_hold(r, "CmsMsg")
     vlib.require_coverage(r, ["Deviate"], "CmsMsg")
     c.add_tlc(r, "conforming messages (9 signed-attribute sizes incl. 127-129 and 255-257 bytes; AKI present/absent; CRL empty / listing "
-                 "another certificate) and every single and double (thorough: triple) deviation over 13 facets: SinglePoint Monotone")
+                 "another certificate) and every single and double (thorough: triple) deviation over 13 facets: SinglePoint (the conforming message is accepted, every single deviation rejected), OnlyWholeIdentity")
     cases = r.replay
     path = write_ndjson(os.path.join(wd, "cases.ndjson"), cases)
     s = vh(["replay", "cmsmsg", path], timeout=3000)
